@@ -112,7 +112,7 @@ def v_case(res, case, lib, cmap, dff):
     devs = ','.join(f'{k}={v}' for k, v in sorted(case['opts'].items())) or 'default'
     key = f'C11/v/{case["lib"]}/{common.h64(case["nl"]):016x}/{devs}/{"bf" if case["bf"] else "plain"}'
     try:
-        text, ports, inst = render.verilog(nl, cmap, dff, opts)
+        text, ports, inst, in_names, out_names_r = render.verilog(nl, cmap, dff, opts)
         case['text'] = text
         c = verilog.parse(text, tlib=lib, branchforks=case['bf'])
         got_ports = [n.name for n in c.io_nodes]
@@ -133,16 +133,14 @@ def v_case(res, case, lib, cmap, dff):
         # variable order of the parsed circuit -> AST variables
         nv = len(names); npat = 1 << nv; mask = (1 << npat) - 1
         col = {nm: sum(1 << p for p in range(npat) if (p >> k) & 1) for k, nm in enumerate(names)}
-        def pname(k):
-            if opts.in_decl == 'scalar' or (opts.in_decl == 'bus_mixed' and k == nl.n_in - 1 and nl.n_in > 1): return f'i:i{k}'
-            return f'i:i[{k}]'
+        def pname(k): return 'i:' + in_names[k]
         exp_names = {pname(k) for k in range(nl.n_in)} | ({'i:clk'} if nl.states else set()) | {f's:{inst[k]}' for k in inst}
         if set(names) != exp_names:
             res.violation(key + '/variables', case, f'inputs/state elements {sorted(names)} expected {sorted(exp_names)}\n{text}'); return
         v = nl.eval2([col[pname(k)] for k in range(nl.n_in)], [col[f's:{inst[k]}'] for k in range(len(nl.states))], mask)
         exp = {}
         for j, s in enumerate(nl.outs):
-            exp['o:' + (f'o{j}' if opts.out_decl == 'scalar' else f'o[{j}]')] = v[s]
+            exp['o:' + out_names_r[j]] = v[s]
         for k, (_, d) in enumerate(nl.states): exp[f'd:{inst[k]}'] = v[d]
         if obs != exp:
             bad = sorted(k for k in set(obs) | set(exp) if obs.get(k) != exp.get(k))
@@ -191,7 +189,7 @@ def b_case(res, case):
         lib = tl.SAED90
         cmap = render.cell_map(lib)
         if all(k.upper() in cmap for k, _ in nl.gates):
-            vt, vports, inst = render.verilog(nl, cmap, render.DFF_CELLS['SAED90'], render.VOpts())
+            vt, vports, inst, _, _ = render.verilog(nl, cmap, render.DFF_CELLS['SAED90'], render.VOpts())
             cv = verilog.parse(vt, tlib=lib)
             cv.resolve_tlib_cells(lib)
             vn, vobs = tt(cv, out_names=[p for p in vports if p.startswith('o')])
